@@ -14,6 +14,7 @@ import (
 
 	"github.com/jackalLabs/canine-chain/v4/app"
 	fttypes "github.com/jackalLabs/canine-chain/v4/x/filetree/types"
+	mkeeper "github.com/jackalLabs/canine-chain/v4/x/jklmint/keeper"
 	mtypes "github.com/jackalLabs/canine-chain/v4/x/jklmint/types"
 	ntypes "github.com/jackalLabs/canine-chain/v4/x/notifications/types"
 	otypes "github.com/jackalLabs/canine-chain/v4/x/oracle/types"
@@ -38,14 +39,15 @@ type chainFam struct {
 	dead    string     // non-empty: the application panicked while starting (InitChain / first block)
 	types   []string
 	// ledger mode (spec/Ledger.tla): project class balances and obligations after every step
-	ledger  bool
-	lgAddr  map[string]string
-	lgUsers map[string]bool
-	lgGauge map[string]bool
-	lgBase  *lgSnap
-	lgPrev  *lgSnap
-	lgBig   bool
-	nreg    int
+	ledger   bool
+	lgAddr   map[string]string
+	lgUsers  map[string]bool
+	lgGauge  map[string]bool
+	lgBase   *lgSnap
+	lgPrev   *lgSnap
+	lgBig    bool
+	richColl bool // this scenario runs with a collateral price above 2^31
+	nreg     int
 }
 
 func init() { families["chain"] = func() Family { return &chainFam{} } }
@@ -97,18 +99,40 @@ func (f *chainFam) Reset() M {
 				gs["jklmint"] = a.AppCodec().MustMarshalJSON(&mg)
 			})
 		}
+		f.richColl = f.rng.Intn(6) == 0
+		if f.richColl { // a collateral price far above 2^31 (set by governance), providers funded accordingly
+			muts = append(muts, func(gs app.GenesisState, a *app.JackalApp) {
+				var sg stypes.GenesisState
+				a.AppCodec().MustUnmarshalJSON(gs["storage"], &sg)
+				sg.Params.CollateralPrice = 2_000_000_000_000
+				gs["storage"] = a.AppCodec().MustMarshalJSON(&sg)
+			})
+		}
+		if f.rng.Intn(5) == 0 { // the stipend parameter names an account that already receives a share: the dev-grants pool
+			muts = append(muts, func(gs app.GenesisState, a *app.JackalApp) {
+				var mg mtypes.GenesisState
+				a.AppCodec().MustUnmarshalJSON(gs["jklmint"], &mg)
+				if dev, err := mkeeper.GetDevGrantsAccount(); err == nil {
+					mg.Params.StorageStipendAddress = dev.String()
+				}
+				gs["jklmint"] = a.AppCodec().MustMarshalJSON(&mg)
+			})
+		}
 		f.c = chain.New(muts...)
 	}()
 	if f.dead != "" {
 		f.c = nil
 		f.halted = false
-		return M{"big": true, "split": M{"rs": int64(0), "rd": int64(0), "rp": int64(0), "rem": int64(0)}}
+		return M{"big": true, "split": M{"rs": int64(0), "rd": int64(0), "rp": int64(0), "rem": int64(0), "collres": int64(0)}}
 	}
 	f.c.Step = 24 * 3600 * 1e9
 	f.halted = false
 	c := f.c
 	for _, l := range f.labels {
 		c.Fund(c.Ctx, c.Acct(l).Addr, sdk.NewCoins(sdk.NewInt64Coin("ujkl", 500_000_000), sdk.NewInt64Coin("uusd", 1_000_000)))
+		if f.richColl && strings.HasPrefix(l, "p") {
+			c.Fund(c.Ctx, c.Acct(l).Addr, sdk.NewCoins(sdk.NewInt64Coin("ujkl", 9_000_000_000_000)))
+		}
 	}
 	f.types = customMsgTypes(c.App)
 	a, b, cc := c.Acct("a"), c.Acct("b"), c.Acct("c")
@@ -172,7 +196,7 @@ func (f *chainFam) Project() M {
 		return M{}
 	}
 	if f.c == nil {
-		return M{"big": true, "split": M{"rs": int64(0), "rd": int64(0), "rp": int64(0), "rem": int64(0)}}
+		return M{"big": true, "split": M{"rs": int64(0), "rd": int64(0), "rp": int64(0), "rem": int64(0), "collres": int64(0)}}
 	}
 	return f.lgProject(f.lgTake())
 }
